@@ -108,13 +108,15 @@ pub fn intersect_cc<'a>(mut a: &'a Circle, mut b: &'a Circle) -> CircleIntersect
     } else if d < a.r - b.r + EPS {
         CircleIntersection::TouchInside(a.c + (b.c - a.c) / d * a.r)
     } else if d < a.r + b.r - EPS {
-        // the circles are known to cross here, so there are always two points:
-        // `h` is the distance from a.c to the radical line along (b.c - a.c)
-        let h = (d * d + a.r * a.r - b.r * b.r) / (2.0 * d);
-        let side = (a.r * a.r - h * h).max(0.0).sqrt();
+        // the circles are known to cross here, so there are always two points.
+        // Measured from the centre of the smaller circle `b`: `h` is the distance from b.c to the radical line
+        // along (a.c - b.c). Factoring d^2 - a.r^2 and staying at the scale of b.r keeps the points on both
+        // circles even when `b` is tiny compared with `a` (a.r^2 - h_a^2 would cancel catastrophically there)
+        let h = ((d - a.r) * (d + a.r) + b.r * b.r) / (2.0 * d);
+        let side = (b.r * b.r - h * h).max(0.0).sqrt();
         let dir = (b.c - a.c) / d;
         let par = Point::new(-dir.y, dir.x);
-        CircleIntersection::Intersect(a.c + dir * h + par * side, a.c + dir * h - par * side)
+        CircleIntersection::Intersect(b.c - dir * h + par * side, b.c - dir * h - par * side)
     } else if d < a.r + b.r + EPS {
         CircleIntersection::TouchOutside(a.c + (b.c - a.c) / d * a.r)
     } else {
